@@ -1,4 +1,7 @@
 import GB.C08.Proofs
+import GB.C08.MimeProofs
+import GB.C08.HandoffProofs
+import GB.C08.ConnProofs
 import GB.Generated.Facts
 /-
   C08 — gRPC-Web framing is lossless and always ends with exactly one status trailer.
@@ -217,6 +220,186 @@ theorem C08_trailer_overrides_target_status (v w : Bytes) (hv : (13 : UInt8) ∉
   · exact ⟨kStatus_clean.1, kStatus_clean.2, hv⟩
   · exact ⟨kMessage_clean.1, kMessage_clean.2, hw⟩
 
+/-- The response theorems speak about the complete body, i.e. what the client has once ServeHTTP returned; before
+    that the model promises only a prefix, and the empty prefix is allowed: no message is guaranteed to be visible
+    while the target is silent (the bridge never flushes). The property text promises content and shape, not timeliness. -/
+theorem C08_resp_visible (ms : List Bytes) (tr : MD) (visible : Bytes) :
+    (VisibleOK true (respondHTTPWith ms tr) visible → visible = respondHTTPWith ms tr) ∧
+    VisibleOK false (ms.flatMap lpmMessage) [] ∧ VisibleOK false (ms.flatMap lpmMessage) (ms.flatMap lpmMessage) := by
+  refine ⟨fun h => by simpa [VisibleOK] using h, by simp [VisibleOK], by simp [VisibleOK]⟩
+
+/-! ### the gRPC-WebSocket header message (readMD = textproto.ReadMIMEHeader, modelled; no oracle) -/
+
+/-- The header message, as Go 1.23 net/textproto reads it (`readMIME`, tied to the real readMD differentially):
+    * if it parses to the lines `ps`, the call is entered with it (whatever else the client has sent), the
+      `metadata.MD(mimeHeader)` put into the context is exactly the lines grouped by canonical key, values in line
+      order, and what `ProxyForwarder.Forward` reads back with metadata.FromIncomingContext (C07's model) is exactly
+      the lines grouped by lower-cased key, values in line order (for token keys, i.e. all keys without a space);
+    * if it does not parse, no metadata is ever handed over — RouteGRPC and Forward are not entered —, the only event is
+      the rejection, and the client gets exactly one trailer message stating InvalidArgument (3). -/
+theorem C08_ws_metadata (data : Bytes) :
+    (∀ ps, readMIME data = some ps →
+      (∀ ds, wsCallMD (wsEvents mdOkReal {} (data :: ds)) = some data) ∧
+      (∀ K, GB.C07.MD.lookup (headerMD ps) K = grp GB.C07.canonKey ps K) ∧
+      ((∀ p ∈ ps, tokenKey p.1) → ∀ q, GB.C07.MD.lookup (forwardMD ps) q = grp GB.C07.lower ps q)) ∧
+    (readMIME data = none →
+      (∀ ds, wsEvents mdOkReal {} (data :: ds) = [WSEv.badMD] ∧ wsCallMD (wsEvents mdOkReal {} (data :: ds)) = none) ∧
+      ∃ block, decodeWS wsRespondBadHeader = some (none, [], block) ∧ TrailerSays block 3 badHeaderMsg) := by
+  refine ⟨fun ps hps => ⟨fun ds => ?_, headerMD_lookup ps, forwardMD_lookup ps⟩, fun hnone => ⟨fun ds => ?_, ?_⟩⟩
+  · have hok : mdOkReal data = true := by simp [mdOkReal, hps]
+    have := onMessage_header mdOkReal data hok
+    unfold wsEvents
+    simp [wsEventsWith, this, wsCallMD]
+  · have hbad : mdOkReal data = false := by simp [mdOkReal, hnone]
+    have := C08_ws_bad_header_ends_call mdOkReal data hbad ds
+    rw [this]; exact ⟨rfl, rfl⟩
+  · have h := C08_ws_resp_shape [] [] [] (trailerWithStatus [] 3 badHeaderMsg) 3 badHeaderMsg (by decide) (by simp) (by simp)
+      (List.Perm.refl _) (by decide)
+    exact ⟨_, by simpa [wsRespondBadHeader, wsRespond] using h.1, h.2.1⟩
+
+/-- malformed header messages, kernel-evaluated: no final newline, no colon, empty key, invalid key byte, control
+    byte in the value, leading space; and well-formed ones: LF-only line ends, folded continuation, OWS trimming,
+    a key with a space kept as written, text after the empty line ignored, the empty message -/
+theorem C08_ws_metadata_cases :
+    readMIME [97, 58, 32, 98] = none ∧                                  -- "a: b" (EOF before the empty line)
+    readMIME [97, 32, 98, 13, 10] = none ∧                              -- "a b\r\n"
+    readMIME [58, 32, 98, 13, 10] = none ∧                              -- ": b\r\n"
+    readMIME [97, 9, 58, 32, 98, 13, 10] = none ∧                       -- "a\t: b\r\n"
+    readMIME [97, 58, 32, 1, 13, 10] = none ∧                           -- "a: \x01\r\n"
+    readMIME [32, 97, 58, 32, 98, 13, 10] = none ∧                      -- " a: b\r\n"
+    readMIME [] = some [] ∧
+    readMIME [97, 58, 98, 10] = some [([97], [98])] ∧                   -- "a:b\n"
+    readMIME [97, 58, 32, 32, 98, 32, 13, 10, 9, 99, 32, 13, 10] = some [([97], [98, 32, 99])] ∧   -- "a:  b \r\n\tc \r\n"
+    readMIME [97, 32, 58, 98, 13, 10] = some [([97, 32], [98])] ∧       -- "a :b\r\n"
+    readMIME [97, 58, 98, 13, 10, 13, 10, 120] = some [([97], [98])] ∧  -- "a:b\r\n\r\nx"
+    forwardMD [([67, 45, 116], [49]), ([99, 45, 84], [50])] = [([99, 45, 116], [[49], [50]])] := by   -- C-t: 1, c-T: 2
+  refine ⟨?_, ?_, ?_, ?_, ?_, ?_, ?_, ?_, ?_, ?_, ?_, ?_⟩ <;> decide
+
+/-! ### the gRPC-WebSocket request hand-off, over every interleaving (LTS in Handoff.lean) -/
+
+open GB.C08.Handoff in
+/-- No interleaving reaches a send on the closed `events` channel or a second `close(events)`: the panic labels are
+    never enabled, and no reachable state is a panicked one. -/
+theorem C08_ws_no_send_on_closed (cs : Bool) (s : St) (h : GB.LTS.Reachable (step cs) init s) :
+    s.panicked = false ∧ step cs s Lbl.sendOnClosed = none ∧
+    ∀ s', step cs s Lbl.closeEvents = some s' → s'.panicked = false := by
+  have inv := inv_reachable cs s h
+  refine ⟨inv.pan, ?_, fun s' hs => (inv_step cs s s' _ inv hs).pan⟩
+  simp only [step]
+  split
+  · rename_i e rest hr
+    have := (inv.busy _ hr).2.1
+    simp [this]
+  · rfl
+
+open GB.C08.Handoff in
+/-- In every reachable state of every interleaving: what the Recv calls have returned is a prefix of the sequential
+    event sequence of the client's messages (nothing lost, reordered, duplicated or invented); as long as the handler
+    has not closed `done`, results plus what is in flight (inside OnMessage's select, before close(events), or the
+    closed channel not yet noticed) is exactly the event sequence of what the read loop took; and for a client that
+    sends `ms` and the finish marker (and anything after it): a Recv that returned io.EOF did so after exactly the
+    messages `ms`, in order, and once the read loop has worked off the socket the closed channel is there for the
+    pump — the next Recv returns io.EOF. -/
+theorem C08_ws_handoff (cs : Bool) (s : St) (h : GB.LTS.Reachable (step cs) init s) :
+    s.results <+: eventsOf false s.sent ∧
+    (s.done = false → eventsOf false s.consumed = s.results ++ flight s) ∧
+    (∀ ms junk : List Bytes, s.sent = ms.map wsFrame ++ wsFinish :: junk →
+      (s.eofTaken = true → s.results = ms.map WSEv.msg ++ [WSEv.eof]) ∧
+      (s.pending = [] → s.reader = Reader.idle → s.done = false →
+        s.eventsClosed = true ∧
+        s.results ++ (if s.eofTaken then [] else [WSEv.eof]) = ms.map WSEv.msg ++ [WSEv.eof])) := by
+  have inv := inv_reachable cs s h
+  have hpre : s.results <+: eventsOf false s.sent := by
+    rw [inv.hist, eventsOf_append]
+    exact List.IsPrefix.trans inv.pre (List.prefix_append _ _)
+  refine ⟨hpre, inv.eq, fun ms junk hs => ⟨fun he => ?_, fun hp hr hd => ?_⟩⟩
+  · rw [hs, eventsOf_wellformed] at hpre
+    exact eq_of_prefix_eof _ _ (by simp) hpre (inv.eofr he)
+  · have hc : s.consumed = s.sent := by rw [inv.hist, hp]; simp
+    have heq := inv.eq hd
+    rw [hc, hs, eventsOf_wellformed] at heq
+    simp only [flight, hr, todoOf, List.nil_append] at heq
+    cases hec : s.eventsClosed with
+    | false =>
+      exfalso
+      simp only [hec, Bool.false_and, Bool.false_eq_true, ↓reduceIte, List.append_nil] at heq
+      have hmem : WSEv.eof ∈ s.results := by rw [← heq]; simp
+      have := inv.eoft (inv.eofi hmem); simp [hec] at this
+    | true =>
+      refine ⟨rfl, ?_⟩
+      cases het : s.eofTaken with
+      | false => simp [hec, het] at heq; simp [heq]
+      | true => simp [hec, het] at heq; simp [heq]
+
+open GB.C08.Handoff in
+/-- Once ServeHTTP has closed `done` (the handler is on its way out), the read loop is never stuck: from every
+    reachable state there is a finite sequence of read-loop steps only (take a message, leave the select through
+    `<-done`, close(events)) — each enabled without any help from the pump — after which every message on the socket
+    has been worked off and OnMessage has returned (or the loop has already exited); no panic on the way. -/
+theorem C08_ws_readloop_released (cs : Bool) (s : St) (h : GB.LTS.Reachable (step cs) init s) (hd : s.done = true) :
+    ∃ ls s', (∀ l ∈ ls, readerLbl l = true) ∧ GB.LTS.run (step cs) s ls = some s' ∧ s'.panicked = false ∧
+      (s'.reader = Reader.exited ∨ (s'.reader = Reader.idle ∧ s'.pending = [])) :=
+  released_aux cs (measure s) s (inv_reachable cs s h) hd (Nat.le_refl _)
+
+/-! ### the end of a gRPC-WebSocket call at connection level (fix D32: graceful close) -/
+
+/-- facts: no hard close (`gws.Conn.WriteClose` = close frame + immediate TCP close) is left in the WebSocket bridges,
+    both closing paths go through `closeGracefully`, and the close timeout is the 3 s the harness bounds against -/
+theorem C08_facts_graceful_close :
+    GB.Generated.wsWriteCloseCalls = 0 ∧ GB.Generated.wsGracefulCloseCallers = ["sendTrailer", "ServeHTTP"] ∧
+    GB.Generated.wsCloseTimeoutMs = 3000 := by
+  decide
+
+open GB.C08.Conn in
+/-- With the graceful close, in EVERY execution (any client writes, parking of the read loop, delivery and read
+    timing): nothing of the response is ever dropped unless the close timeout fired, and whenever the connection is
+    closed without the timeout having fired, the client has read the complete response — every message
+    (`[header] data* trailer`) in order and then the close frame. A client that keeps reading and answers the close
+    frame never sees less. -/
+theorem C08_ws_tail_delivered (frames : List Bytes) (s : St)
+    (h : GB.LTS.Reachable (step Mode.graceful) (init frames) s) :
+    (s.deadline = false → s.lost = false ∧ s.got ++ s.cq ++ s.sq ++ s.towrite = script frames) ∧
+    (s.tcpClosed = true → s.deadline = false → s.got = script frames ∧ s.lost = false) := by
+  have inv := inv_reachable frames s h
+  have hnl : s.deadline = false → s.lost = false := by
+    intro hd
+    cases hl : s.lost with
+    | false => rfl
+    | true => have := inv.lostd hl; simp [hd] at this
+  refine ⟨fun hd => ⟨hnl hd, inv.cons (hnl hd)⟩, fun ht hd => ⟨?_, hnl hd⟩⟩
+  rcases inv.tc ht with hr | hdl
+  · have hc := inv.crep (inv.rr hr).2
+    have hcons := inv.cons (hnl hd)
+    rw [List.append_assoc, List.append_assoc] at hcons
+    exact (got_complete frames s.got _ hcons hc).1
+  · simp [hd] at hdl
+
+open GB.C08.Conn in
+/-- Termination within the bound: once the close frame is written, the handler's way out never depends on the
+    client — the deadline can fire and the connection then be closed, whatever the client does or does not do. -/
+theorem C08_ws_close_bounded (frames : List Bytes) (s : St)
+    (h : GB.LTS.Reachable (step Mode.graceful) (init frames) s) (hc : s.closeSent = true) (ht : s.tcpClosed = false) :
+    ∃ s', GB.LTS.run (step Mode.graceful) s [Lbl.timeout, Lbl.srvTcpClose] = some s' ∧ s'.tcpClosed = true := by
+  refine ⟨tcpClose { s with deadline := true }, ?_, rfl⟩
+  simp [GB.LTS.run, step, hc, ht]
+
+open GB.C08.Conn in
+/-- What fix D32 removed, kernel-evaluated on the original order (write the close frame and close the connection at
+    once): one client message is still unread when the bridge ends the call; the data frame and the trailer are in the
+    send queue; the abortive close drops them — the client never gets the trailer, whatever it does afterwards (nothing
+    is left to deliver); the same schedule under the graceful close delivers everything. -/
+theorem C08_ws_original_hard_close_loses_trailer :
+    (GB.LTS.run (step Mode.hard) (init [[0, 0, 0, 0, 1, 7], [128, 0, 0, 0, 0]])
+        [Lbl.cliWrite, Lbl.srvRead, Lbl.park, Lbl.cliWrite, Lbl.srvWrite, Lbl.srvWrite, Lbl.srvCloseFrame, Lbl.closeDone]).map
+      (fun s => (s.got, s.cq, s.sq, s.lost, s.tcpClosed)) = some ([], [], [], true, true) ∧
+    (GB.LTS.run (step Mode.graceful) (init [[0, 0, 0, 0, 1, 7], [128, 0, 0, 0, 0]])
+        [Lbl.cliWrite, Lbl.srvRead, Lbl.park, Lbl.cliWrite, Lbl.srvWrite, Lbl.srvWrite, Lbl.srvCloseFrame, Lbl.closeDone,
+         Lbl.srvRead, Lbl.deliver, Lbl.deliver, Lbl.deliver, Lbl.cliRead, Lbl.cliRead, Lbl.cliRead, Lbl.cliReply,
+         Lbl.srvReadReply, Lbl.srvTcpClose]).map
+      (fun s => (s.got, s.lost, s.tcpClosed)) =
+        some ([Item.frame [0, 0, 0, 0, 1, 7], Item.frame [128, 0, 0, 0, 0], Item.close], false, true) := by
+  refine ⟨?_, ?_⟩ <;> decide
+
 /-! ### non-vacuity -/
 
 -- two messages, one of them empty, and EOF
@@ -230,3 +413,13 @@ example : decodeBody (respondHTTP [[1], []] [] 0 []) = some ([[1], []], trailerB
 -- WebSocket: header, an empty message, finish, ignored junk
 example : wsRecvTrace 5 (wsEvents (fun _ => true) {} [[], wsFrame [], wsFinish, wsFrame [1]]) = [.msg [], .eof] := by decide
 example : CleanKV ([120, 45, 116], [118, 49]) := by unfold CleanKV; decide
+
+-- an interleaving of the hand-off: two messages and the finish marker, the pump in between; EOF at the end
+example : (GB.LTS.run (Handoff.step true) Handoff.init
+    [.clientSend (wsFrame [7]), .clientSend (wsFrame []), .recvCall, .read, .handoff, .clientSend wsFinish, .read, .recvCall,
+     .handoff, .recvCall, .read, .closeEvents, .recvClosed]).map (·.results) =
+    some [.msg [7], .msg [], .eof] := by decide
+-- the handler leaves while a message is still offered: `<-done` releases OnMessage
+example : (GB.LTS.run (Handoff.step false) Handoff.init
+    [.clientSend (wsFrame [7]), .clientSend (wsFrame [8]), .recvCall, .read, .handoff, .read, .closeDone, .onDone, .readerExit]).map
+      (fun s => (s.results, s.reader)) = some ([.msg [7]], .exited) := by decide
